@@ -93,7 +93,8 @@ func genC11StepsAt(t *rapid.T, depth int, top bool) []Step {
 	usedSubs := map[string]bool{}
 	for i := 0; i < n; i++ {
 		if depth > 0 && rapid.IntRange(0, 3).Draw(t, "sub") == 0 {
-			name := rapid.SampledFrom([]string{"sub", "with space", "100% done", "a/b", "dots.and.more", "ünï", "x", "%d", "returns the paginated list of users when the caller is an administrator"}).Draw(t, "subname")
+			name := rapid.SampledFrom([]string{"sub", "with space", "100% done", "a/b", "dots.and.more", "ünï", "x", "%d", "returns the paginated list of users when the caller is an administrator",
+				"case: empty", "GET /users?id=1", "*.go", "quote\"d", "a<b>|c", "10:30"}).Draw(t, "subname")
 			if usedSubs[name] {
 				continue
 			}
